@@ -35,8 +35,17 @@ type c14Fmt struct {
 	family   string
 }
 
+// precSpelling: a precision is a run of digits; leading zeros do not change the number it writes
+func precSpelling(r *rand.Rand, prec int) string {
+	s := fmt.Sprint(prec)
+	if r.Intn(4) == 0 {
+		s = strings.Repeat("0", 1+r.Intn(3)) + s
+	}
+	return s
+}
+
 func checkC14(c *Ctx) {
-	c.rule = "(0) 长度 / 字数 / 字符组 of a text variable read again after the number / list handed out was changed in place (自增 / 自减 / 后增 / 前增, through a copy, as an argument, as a literal item): equal to the first read and to the number of characters; (1) text operations through the element API: for texts over ASCII/CJK/astral/combining characters and U+FFFD, NUL, U+FEFF, U+2028, U+FFFF, U+10FFFF, the encoding-length boundaries U+0080 / U+07FF / U+0800, 长度 == 字数 == len(字符组) == number of code points; 取样(i,j) for every pair in [-(n+2), n+2]^2 (all pairs for n<=10, random beyond): inside 1<=i<=j<=n it must equal characters i..j of 字符组 joined, elsewhere any result must be valid UTF-8 (never half a character); every pair is repeated on a shadow text of equally many distinct one-byte characters and must select the same positions with the same outcome kind (counting must not depend on byte lengths); 分隔 then 拼接 with the same separator is the identity; the same laws through Zn programs; (2) formatting ‹template› % ‹list› through Zn programs: templates mixing literal text and the documented placeholders {} {#} {#.N} {#+} {#.N%} {#.NE} (N in 0..40) with doubles from a boundary pool and random; expected text built from Python %-formatting; {} must insert exactly what 显示 prints for a value of any kind (objects, types, methods, exceptions, nested collections); templates that must be errors (count mismatch, numeric directive on a non-number, unbalanced/nested braces, directive not starting with #, # followed by other characters, absurd precision). distinct_nontrivial = distinct (family, text shape / directive sequence, outcome)"
+	c.rule = "(0) 长度 / 字数 / 字符组 of a text variable read again after the number / list handed out was changed in place (自增 / 自减 / 后增 / 前增, through a copy, as an argument, as a literal item): equal to the first read and to the number of characters; (1) text operations through the element API: for texts over ASCII/CJK/astral/combining characters and U+FFFD, NUL, U+FEFF, U+2028, U+FFFF, U+10FFFF, the encoding-length boundaries U+0080 / U+07FF / U+0800, 长度 == 字数 == len(字符组) == number of code points; 取样(i,j) for every pair in [-(n+2), n+2]^2 (all pairs for n<=10, random beyond): inside 1<=i<=j<=n it must equal characters i..j of 字符组 joined, elsewhere any result must be valid UTF-8 (never half a character); every pair is repeated on a shadow text of equally many distinct one-byte characters and must select the same positions with the same outcome kind (counting must not depend on byte lengths); 分隔 then 拼接 with the same separator is the identity; the same laws through Zn programs; (2) formatting ‹template› % ‹list› through Zn programs: templates mixing literal text and the documented placeholders {} {#} {#.N} {#+} {#.N%} {#.NE} (N in 0..40, also written with leading zeros) with doubles from a boundary pool and random; expected text built from Python %-formatting; {} must insert exactly what 显示 prints for a value of any kind (objects, types, methods, exceptions, nested collections); templates that must be errors (count mismatch, numeric directive on a non-number, unbalanced/nested braces, directive not starting with #, # followed by other characters, absurd precision). distinct_nontrivial = distinct (family, text shape / directive sequence, outcome)"
 	c.assumptions = []string{"Python % formatting is the reference for the numeric directives", "{} is exercised with texts, booleans, 空 and small integers only (display spelling of doubles is unspecified)", "percent rendering is judged only where x*100 in double and exact decimal scaling agree"}
 	rng := c.Rand("c14")
 	py, err := startPyOracle(c.Root)
@@ -359,7 +368,7 @@ func checkC14(c *Ctx) {
 				pending = append(pending, pend{ci: len(cases), seg: len(parts) - 1, item: pyFmtItem{Bits: math.Float64bits(x), Spec: "%.6g"}})
 				dirs += "{#}"
 			case 2:
-				tm.WriteString(fmt.Sprintf("{#.%d}", prec))
+				tm.WriteString("{#." + precSpelling(rng, prec) + "}")
 				cs.args = append(cs.args, Num(x))
 				parts = append(parts, "")
 				pending = append(pending, pend{ci: len(cases), seg: len(parts) - 1, item: pyFmtItem{Bits: math.Float64bits(x), Spec: fmt.Sprintf("%%.%df", prec)}})
@@ -371,13 +380,13 @@ func checkC14(c *Ctx) {
 				pending = append(pending, pend{ci: len(cases), seg: len(parts) - 1, item: pyFmtItem{Bits: math.Float64bits(x), Spec: "%+.6g"}})
 				dirs += "{#+}"
 			case 4:
-				tm.WriteString(fmt.Sprintf("{#.%d%%}", prec))
+				tm.WriteString("{#." + precSpelling(rng, prec) + "%}")
 				cs.args = append(cs.args, Num(x))
 				parts = append(parts, "")
 				pending = append(pending, pend{ci: len(cases), seg: len(parts) - 1, item: pyFmtItem{Bits: math.Float64bits(x * 100), Spec: fmt.Sprintf("%%.%df%%%%", prec)}, pct: true, prec: prec, x: x})
 				dirs += "{#.N%}"
 			case 5:
-				tm.WriteString(fmt.Sprintf("{#.%dE}", prec))
+				tm.WriteString("{#." + precSpelling(rng, prec) + "E}")
 				cs.args = append(cs.args, Num(x))
 				parts = append(parts, "")
 				pending = append(pending, pend{ci: len(cases), seg: len(parts) - 1, item: pyFmtItem{Bits: math.Float64bits(x), Spec: fmt.Sprintf("%%.%dE", prec)}})
